@@ -260,5 +260,5 @@ def search(seed, tier, hints):
 
 def replay(payload):
     common.say("replay input:", payload.get("input"))
-    common.say("re-run the check with the recorded seed to reproduce")
-    return 0
+    common.say("re-running the check with the recorded seed and tier")
+    return common.replay_by_rerun("C12", payload)
